@@ -25,6 +25,7 @@ func init() {
 
 func runC16(c *Ctx) {
 	const rel = "stcp"
+	c.checkOptionTargets("C16.accept-guard", rel)
 	exitOnce := c.mustField(rel, "Session", "exitOnce")
 	startOnce := c.mustField(rel, "Session", "startOnce")
 	count := c.mustField(rel, "SessionMgr", "count")
